@@ -133,12 +133,27 @@ TABLE['core::ptr::write_bytes'] = _bulk('write_bytes')
 TABLE['core::slice::<impl [T]>::fill'] = _bulk('fill')
 TABLE['core::ptr::mut_ptr::<impl *mut T>::copy_to'] = _bulk('copy')
 TABLE['core::ptr::const_ptr::<impl *const T>::copy_to'] = _bulk('copy')
-TABLE['core::ptr::mut_ptr::<impl *mut T>::copy_from'] = _bulk('copy_from')
+def _bulk_from(kind):
+    # dst.copy_from(src, n): same operation as ptr::copy(src, dst, n)
+    inner = _bulk(kind)
+
+    def h(I, st, fid, bi, a, c, t):
+        return inner(I, st, fid, bi, [a[1], a[0]] + list(a[2:]), c, t)
+    return h
+
+
+TABLE['core::ptr::mut_ptr::<impl *mut T>::copy_from'] = _bulk_from('copy')
+TABLE['core::ptr::mut_ptr::<impl *mut T>::copy_from_nonoverlapping'] = _bulk_from('copy_nonoverlapping')
+TABLE['core::ptr::non_null::NonNull::<T>::copy_from'] = _bulk_from('copy')
+TABLE['core::ptr::non_null::NonNull::<T>::copy_from_nonoverlapping'] = _bulk_from('copy_nonoverlapping')
+TABLE['core::ptr::non_null::NonNull::<T>::copy_to'] = _bulk('copy')
+TABLE['core::ptr::non_null::NonNull::<T>::copy_to_nonoverlapping'] = _bulk('copy_nonoverlapping')
+TABLE['core::ptr::mut_ptr::<impl *mut T>::write_bytes'] = _bulk('write_bytes')
 TABLE['core::ptr::mut_ptr::<impl *mut T>::copy_to_nonoverlapping'] = _bulk('copy_nonoverlapping')
 TABLE['core::ptr::const_ptr::<impl *const T>::copy_to_nonoverlapping'] = _bulk('copy_nonoverlapping')
 
 
-@model('core::ptr::drop_in_place')
+@model('core::ptr::drop_in_place', 'core::ptr::mut_ptr::<impl *mut T>::drop_in_place', 'core::ptr::non_null::NonNull::<T>::drop_in_place')
 def _drop_in_place(I, st, fid, bi, a, c, t):
     I.event('drop_in_place', st, fid, bi, t.get('span') if t else None, args=a, extra={'ty': garg(c)})
     I.havoc(st, 'drop_in_place')
@@ -245,7 +260,7 @@ for _ty in ('usize', 'isize', 'u8', 'u32', 'u64'):
     TABLE[b + 'abs_diff'] = _bin('abs_diff')
     TABLE[b + 'pow'] = _bin('pow')
     TABLE[b + 'next_power_of_two'] = lambda I, st, fid, bi, a, c, t: app('npot', a[0])
-    TABLE[b + 'is_power_of_two'] = lambda I, st, fid, bi, a, c, t: ('app', 'is_pow2', a[0])
+    TABLE[b + 'is_power_of_two'] = lambda I, st, fid, bi, a, c, t: (C(1 if (a[0][1] > 0 and a[0][1] & (a[0][1] - 1) == 0) else 0) if is_c(a[0]) else ('app', 'is_pow2', a[0]))
     TABLE[b + 'trailing_zeros'] = lambda I, st, fid, bi, a, c, t: ('app', 'ctz', a[0])
     TABLE[b + 'overflowing_add'] = lambda I, st, fid, bi, a, c, t: agg('tuple', '', (('0', app('add', a[0], a[1])), ('1', ('app', 'overflowed', 'add', a[0], a[1]))))
 
@@ -420,6 +435,28 @@ def _opt_unwrap_or(I, st, fid, bi, a, c, t):
 @model('core::option::Option::<T>::unwrap_or_else')
 def _opt_unwrap_or_else(I, st, fid, bi, a, c, t):
     return _opt_cases(I, st, fid, bi, a[0], 'Some', lambda s, p: p, lambda s: _callf(I, fid, bi, a[1], [])(s), 'unwrap_or_else')
+
+
+@model('core::option::Option::<Option<T>>::flatten', 'core::option::Option::<core::option::Option<T>>::flatten')
+def _opt_flatten(I, st, fid, bi, a, c, t):
+    return _opt_cases(I, st, fid, bi, a[0], 'Some', lambda s, p: p, lambda s: NONE, 'flatten')
+
+
+@model('core::bool::<impl bool>::then_some')
+def _bool_then_some(I, st, fid, bi, a, c, t):
+    # the argument has been evaluated already (eagerly) by the caller: only the wrapping depends on the condition
+    cond = a[0]
+    if is_c(cond):
+        return some(a[1]) if cond[1] else NONE
+    sa, sb = st.copy(), st.copy()
+    fa, fb = I.truth(st, cond, True), I.truth(st, cond, False)
+    if ('false',) in fa:
+        return NONE
+    if ('false',) in fb:
+        return some(a[1])
+    sa.facts |= fa
+    sb.facts |= fb
+    return I.join2(st, fid, bi, 'then_some', (sa, some(a[1])), (sb, NONE))
 
 
 @model('core::option::Option::<T>::ok_or')
